@@ -25,7 +25,7 @@ Record reqobs := { ro_req : request; ro_calls : list call; ro_out : outcome }.
 Record oentry := { oe_host : bool; oe_type : mtype; oe_pat : string; oe_val : string; oe_ans : bool }.
 
 Record case := {
-  c_rules : list ruledef; c_oracle : list oentry; c_load : loadobs; c_reqs : list reqobs }.
+  c_rules : list ruledef; c_split : nat; c_oracle : list oentry; c_load : loadobs; c_reqs : list reqobs }.
 
 (** the engines as observed on this case's (pattern, value) pairs *)
 Definition eng_of (tbl : list oentry) : engine :=
@@ -127,7 +127,7 @@ Definition check (fx1 fx2 fx3 fx4 fx5 fx6 : bool) (fx7 : dec) (c : case) : verdi
   let tbl := flat_routes 0 (c_rules c) in
   (* the property on whatever the implementation served, also when the model refuses the rule set *)
   let obs_prop := forallb (req_prop (c_oracle c) eng tbl) (c_reqs c) in
-  match load fx3 fx4 (c_rules c) with
+  match load2 fx3 fx4 (c_split c) (c_rules c) with
   | Loaded es t =>
     let corr := forallb (fun o =>
                   let '(mout, mcalls) := serve fx1 fx2 fx5 fx6 fx7 eng es t (ro_req o) in
@@ -148,4 +148,4 @@ Definition rq m s h p rp := {| q_method := m; q_scheme := s; q_host := h; q_path
 Definition cl v k vs r := {| k_vid := v; k_keys := k; k_vals := vs; k_res := r |}.
 Definition ro q cs o := {| ro_req := q; ro_calls := cs; ro_out := o |}.
 Definition oe h t p v a := {| oe_host := h; oe_type := t; oe_pat := p; oe_val := v; oe_ans := a |}.
-Definition cs r o l q := {| c_rules := r; c_oracle := o; c_load := l; c_reqs := q |}.
+Definition cs r k o l q := {| c_rules := r; c_split := k; c_oracle := o; c_load := l; c_reqs := q |}.
